@@ -56,6 +56,9 @@ pub struct Features {
     pub recharges: bool,
     /// Time-dependent routing: several matrices with timestamps per profile.
     pub time_dependent: bool,
+    /// Focus profile (only where `allowed` asks for it): very few locations, fractional cost coefficients, no fixed cost,
+    /// no time windows - many candidates of mathematically equal cost whose computed costs differ in the last bits.
+    pub tie_focus: bool,
 }
 
 impl Features {
@@ -68,7 +71,7 @@ impl Features {
             multi_job, multi_dim, multi_tw, multi_place, tags, skills, groups, compat, order, value, limits, tour_size,
             multi_shift, open_end, latest_departure, unreachable, multi_profile, scale, reloads, shared_reload,
             opt_breaks, req_breaks, relations, nonmetric, asymmetric, objectives, same_location, tight, many_vehicles,
-            replacement, service, pickups, unreachable_random, reload_focus, shift_focus, clustering, recharges, time_dependent
+            replacement, service, pickups, unreachable_random, reload_focus, shift_focus, clustering, recharges, time_dependent, tie_focus
         );
         v
     }
@@ -106,6 +109,15 @@ impl Features {
             f.opt_breaks = false;
             f.multi_shift = false;
         }
+        if allowed.tie_focus && p.chance(0.12) {
+            f.tie_focus = true;
+            f.same_location = true;
+            f.tight = false;
+            f.multi_tw = false;
+            f.limits = false;
+            f.tour_size = false;
+            f.many_vehicles = allowed.many_vehicles;
+        }
         if !f.reload_focus && allowed.multi_shift && allowed.multi_job && p.chance(0.06) {
             f.shift_focus = true;
             f.multi_shift = true;
@@ -131,6 +143,7 @@ impl Features {
             pd_only: false,
             recharges: false,
             time_dependent: false,
+            tie_focus: false,
         }
     }
 }
@@ -160,6 +173,9 @@ struct Ctx<'a> {
 
 impl Ctx<'_> {
     fn windows(&mut self, max: usize) -> Option<Value> {
+        if self.f.tie_focus && self.p.chance(0.8) {
+            return None;
+        }
         if !self.p.chance(if self.f.tight { 0.8 } else { 0.45 }) {
             return None;
         }
@@ -243,7 +259,7 @@ pub fn generate(seed: u64, limits: &GenLimits, allowed: &Features) -> GenProblem
     let n_jobs = if f.reload_focus || f.shift_focus { limits.max_jobs.max(n_jobs) } else { n_jobs };
     let dims = if f.multi_dim { p.usize(2, 3) } else { 1 };
     let horizon: i64 = *p.pick(&[8_000, 20_000, 40_000]);
-    let n_loc = if f.same_location { p.usize(2, (n_jobs / 2).max(2) + 1) } else { p.usize(2, 2 * n_jobs + 3) };
+    let n_loc = if f.tie_focus { p.usize(2, 3) } else if f.same_location { p.usize(2, (n_jobs / 2).max(2) + 1) } else { p.usize(2, 2 * n_jobs + 3) };
 
     let mut cx = Ctx { p: &mut p, f: &f, n_loc, dims, horizon };
 
@@ -370,9 +386,9 @@ pub fn generate(seed: u64, limits: &GenLimits, allowed: &Features) -> GenProblem
         if f.scale && cx.p.chance(0.6) {
             prof.insert("scale".into(), json!(*cx.p.pick(&[1.0, 2.0, 0.5, 1.5, 1.3])));
         }
-        let (cd, ct) = *cx.p.pick(&[(1.0, 1.0), (1.0, 0.0), (0.0, 1.0), (0.5, 2.0), (2.0, 0.5), (0.0002, 0.004)]);
+        let (cd, ct) = if f.tie_focus { *cx.p.pick(&[(0.0002, 0.004), (0.3, 0.1), (0.7, 0.0), (0.1, 0.3)]) } else { *cx.p.pick(&[(1.0, 1.0), (1.0, 0.0), (0.0, 1.0), (0.5, 2.0), (2.0, 0.5), (0.0002, 0.004)]) };
         let mut costs = Map::new();
-        if cx.p.chance(0.7) {
+        if cx.p.chance(0.7) && !f.tie_focus {
             costs.insert("fixed".into(), json!(cx.p.range(0, 50)));
         }
         costs.insert("distance".into(), json!(cd));
